@@ -1081,7 +1081,7 @@ pub open spec fn manifest<RS>(zip: ZipArchive<RS>) -> Option<Seq<Ev>> { part_eve
 // the start tag in document order; each item is Ok(Attribute { key, value }) with the qualified attribute name and the RAW value bytes,
 // or Err(AttrError) for a malformed attribute.
 pub struct Attribute<'a> { pub key: QName<'a>, pub value: Cow<'a, [u8]> }
-pub uninterp spec fn cow_bytes<'a>(c: Cow<'a, [u8]>) -> Seq<u8>;
+pub open spec fn cow_bytes<'a>(c: Cow<'a, [u8]>) -> Seq<u8> { cow_ref(&c)@ }
 #[verifier::external_body]
 pub struct Attributes<'a> { _p: core::marker::PhantomData<&'a ()> }
 impl<'a> Attributes<'a> {
@@ -1106,9 +1106,30 @@ impl<'a> BytesStart<'a> {
     #[verifier::external_body]
     pub fn attributes(&self) -> (r: Attributes<'_>) ensures r.rem() == self.ev().attrs { unimplemented!() }
 }
+// ---- A-xml / A-std vocabulary for reading ONE attribute value as a number (same text as in unit odsxml)
+/// `Decoder::decode`: the characters the bytes encode (UTF-8 unless the XML declaration says otherwise); None: invalid encoding
+pub uninterp spec fn utf8(raw: Seq<u8>) -> Option<Seq<char>>;
+/// attribute value decoded with entity / character references resolved (what `decode_and_unescape_value` returns); None: error
+pub uninterp spec fn unesc(raw: Seq<u8>) -> Option<Seq<char>>;
+/// `str::parse::<F>()` (`F::from_str`): a function of the text; None: Err.  The grammar of usize is NOT modelled (usize::from_str doc:
+/// an optional `+` sign followed by decimal digits; Err on anything else or on overflow).
+pub uninterp spec fn str_parse<F>(s: Seq<char>) -> Option<F>;
+#[verifier::external_trait_specification]
+pub trait ExFromStr: Sized { type ExternalTraitSpecificationFor: core::str::FromStr; type Err; }
+// TRUSTED: A-std -- str::parse is a (deterministic) function of the characters
+pub assume_specification<F: std::str::FromStr>[ str::parse::<F> ](s: &str) -> (r: Result<F, <F as std::str::FromStr>::Err>)
+    ensures
+        str_parse::<F>(s@) is Some ==> r is Ok && r->Ok_0 == str_parse::<F>(s@)->Some_0,
+        str_parse::<F>(s@) is None ==> r is Err;
+// TRUSTED: A-std -- `Cow::deref` yields the borrowed or owned content; `cow_ref` names it
+pub uninterp spec fn cow_ref<'a, 'b, B: ?Sized + ToOwned>(c: &'b Cow<'a, B>) -> &'b B;
+pub assume_specification<'a, 'b, B: ?Sized + ToOwned>[ <Cow<'a, B> as Deref>::deref ](c: &'b Cow<'a, B>) -> (r: &'b B)
+    ensures r == cow_ref(c);
 /// the decimal number the attribute VALUE spells (XML 1.0 3.3.3: the raw bytes with character / entity references resolved --
-/// `decode_and_unescape_value` -- then `str::parse::<usize>()`), None if it does not.  DEFINED in unit odsxml (`parse_usize` over `unesc`).
-pub uninterp spec fn parse_usize(raw: Seq<u8>) -> Option<usize>;
+/// `decode_and_unescape_value` -- then `str::parse::<usize>()`), None if it does not
+pub open spec fn parse_usize(raw: Seq<u8>) -> Option<usize> {
+    match unesc(raw) { Some(t) => str_parse::<usize>(t), None => None }
+}
 impl<'a> XmlReader<BufReader<ZipFile<'a>>> {
     // TRUSTED: A-xml -- reads events until the End tag with this qualified name at nesting depth 0
     #[verifier::external_body]
@@ -1119,19 +1140,6 @@ impl<'a> XmlReader<BufReader<ZipFile<'a>>> {
             r is Ok ==> final(self).pos() == rte_next(old(self).events(), old(self).pos(), end.0@),
     { unimplemented!() }
 }
-// TRUSTED: the body is the real expression `a.decode_and_unescape_value(reader.decoder()).map_err(OdsError::Xml)?.parse()
-// .map_err(OdsError::ParseInt)?` (without the trailing `?`), moved into a function: decode_and_unescape_value, Cow deref,
-// str::parse::<usize> and the From conversions of `?` are library code outside vstd (this very expression is under proof in unit odsxml,
-// read_row@frame).  usize::from_str doc: accepts an optional `+` sign followed by decimal digits; Err on anything else or on overflow.
-#[verifier::external_body]
-fn verif_parse_repeats(reader: &OdsReader<'_>, a: &Attribute<'_>) -> (r: Result<usize, OdsError>)
-    ensures
-        parse_usize(cow_bytes(a.value)) matches Some(n) ==> r == Ok::<usize, OdsError>(n),
-        parse_usize(cow_bytes(a.value)) is None ==> r is Err,
-{
-    unimplemented!()
-}
-
 // TRUSTED: `#[derive(Clone)]` on Data yields a value equal to the original (Verus attaches no specification to the derived impl)
 #[verifier::external_body]
 pub proof fn axiom_data_clone()
@@ -1232,21 +1240,34 @@ proof fn lemma_expand_push(cl: Seq<CellEl>, el: CellEl)
     assert(cl.push(el).last() == el);
 }
 
-// type-level stand-ins needed only so that the (unverified, external_body) text of get_datatype type-checks
+// TRUSTED: A-xml -- quick_xml::encoding::Decoder / Attribute::decode_and_unescape_value (same contracts as in unit odsxml): read_row
+// reads table:number-columns-repeated through them
 #[verifier::external_body]
 pub struct Decoder { _p: core::marker::PhantomData<()> }
 impl Decoder {
+    // TRUSTED: A-xml -- decodes the bytes (no unescaping)
     #[verifier::external_body]
-    pub fn decode<'b>(&self, bytes: &'b [u8]) -> Result<Cow<'b, str>, quick_xml::encoding::EncodingError> { unimplemented!() }
+    pub fn decode<'b>(&self, bytes: &'b [u8]) -> (r: Result<Cow<'b, str>, quick_xml::encoding::EncodingError>)
+        ensures
+            utf8(bytes@) is Some ==> r is Ok && cow_ref(&r->Ok_0)@ == utf8(bytes@)->Some_0,
+            utf8(bytes@) is None ==> r is Err,
+    { unimplemented!() }
 }
 impl<'a> XmlReader<BufReader<ZipFile<'a>>> {
+    // TRUSTED: A-xml
     #[verifier::external_body]
     pub fn decoder(&self) -> Decoder { unimplemented!() }
 }
 impl<'a> Attribute<'a> {
+    // TRUSTED: A-xml -- decodes the raw value and resolves entity / character references
     #[verifier::external_body]
-    pub fn decode_and_unescape_value(&self, d: Decoder) -> Result<Cow<'a, str>, quick_xml::Error> { unimplemented!() }
+    pub fn decode_and_unescape_value(&self, d: Decoder) -> (r: Result<Cow<'a, str>, quick_xml::Error>)
+        ensures
+            unesc(cow_bytes(self.value)) is Some ==> r is Ok && cow_ref(&r->Ok_0)@ == unesc(cow_bytes(self.value))->Some_0,
+            unesc(cow_bytes(self.value)) is None ==> r is Err,
+    { unimplemented!() }
 }
+// type-level stand-ins needed only so that the (unverified, external_body) text of get_datatype type-checks
 impl<'a> BytesText<'a> {
     #[verifier::external_body]
     pub fn unescape(&self) -> Result<Cow<'a, str>, quick_xml::Error> { unimplemented!() }
@@ -1274,12 +1295,8 @@ impl From<quick_xml::events::attributes::AttrError> for OdsError { #[verifier::e
 //@@ end
 
 //@@ item src/ods.rs const MAX_COLUMNS
-//@@ fn src/ods.rs read_row props=C04,C14 entry ret=r r4
+//@@ fn src/ods.rs read_row props=C04,C14 entry ret=r r4 r12
 //@@ r6 1
-//@@ replace /a\.map_err\(OdsError::XmlAttr\)/ Verus does not support a datatype constructor as a function value; eta-expanded
-a.map_err(|e| -> (oe: OdsError) ensures oe is XmlAttr { OdsError::XmlAttr(e) })
-//@@ replace /a\s*\.decode_and_unescape_value\(reader\.decoder\(\)\)\s*\.map_err\(OdsError::Xml\)\?\s*\.parse\(\)\s*\.map_err\(OdsError::ParseInt\)/ decode_and_unescape_value, Cow deref, str::parse and the From conversions are library code outside vstd; the expression is moved verbatim into the trusted wrapper verif_parse_repeats (the SAME expression is verified against the quick-xml model in unit odsxml: read_row@frame, C04.row_repeat_count_is_the_unescaped_attribute_value)
-verif_parse_repeats(reader, &a)
 //@@ sig
     ensures
         //# C04.row_frame_events
@@ -1338,7 +1355,12 @@ verif_parse_repeats(reader, &a)
 //@@ before /let a = a\.map_err/
                     let ghost rem0 = __it1.rem();
 //@@ before /break;/
-                        proof { found = true; }
+                        proof {
+                            found = true;
+                            // the count is the number the attribute VALUE spells: references resolved (`parse_usize` over `unesc`)
+                            //# C04.row_repeat_count_is_the_unescaped_attribute_value
+                            assert(rep_scan(attrs0) == Some(repeats));
+                        }
 //@@ before /let \(value, formula, is_closed\) = /
                 let ghost el = cell_el(evs, p);
 //@@ after /let \(value, formula, is_closed\) = [^;]*;/
